@@ -23,9 +23,11 @@ from fractions import Fraction as Fr
 from concurrent.futures import ThreadPoolExecutor
 import vf
 import c11_yacc_reader as yr
+import c11_bison_report as br
 
 VERIF = os.path.dirname(os.path.dirname(os.path.abspath(__file__)))
 GEN = os.path.join(VERIF, "coq", "Inline", "Gen", "GrammarGen.v")
+AUT = os.path.join(VERIF, "coq", "Inline", "Gen", "AutomatonGen.v")
 # translator output for the grammar of /repo HEAD before fixes/C11_grammar.patch (sha1 of the generated text)
 UNPATCHED_GRAMMAR_SHA1 = "b7109e49beb196000c4035217ec50870d3fc0d24"
 
@@ -224,7 +226,7 @@ def exhaustive(depth, pows):
     return levels[-1]
 
 
-LITS = ["0", "1", "2", "7", "10", "007", "1234567891", "3/4", "1/2", "10/4", "0/5", "3/010", "5/08", "06/09", "0.0", "0.00e1",
+LITS = ["0", "1", "2", "7", "10", "007", "1234567891", "3/4", "1/2", "10/4", "0/5", "3/010", "5/08", "06/09", "0.0", "0.00e1", "0000", "00007", "00000000/3", "0000.50", "0000/5", "000012/00008", "00000e2",
         "1.5", "0.25", "0.010", "00.5", "2.", "1.e2", "1e-3", "1E+2", "12.5e1", "1.5e3", "0e5", "2.50E-2", "1e010"]
 
 
@@ -428,15 +430,31 @@ def run(ctx):
             grammar_state = "changed"
             restore = committed
             with open(GEN, "w") as f: f.write(gen)
+    # bison's own automaton for the snapshot's grammar file (what build_repo.sh compiled into the library)
+    aut_state, restore_aut = "expected", None
+    if grammar_state != "unpatched":
+        committed_aut = open(AUT).read()
+        try:
+            aut = br.generate(os.path.join(ctx.snap("san"), "src", "libmps", "monomial", "yacc-parser.y"))
+        except Exception as ex:
+            aut = "(* bison report could not be read: %s *)\nDefinition automaton_gen := tt.\n" % (str(ex).replace("*)", "* )")[:300],)
+        if aut != committed_aut:
+            aut_state, restore_aut = "changed", committed_aut
+            with open(AUT, "w") as f: f.write(aut)
     try:
         ctx.prove()
     finally:
+        stale = []
         if restore is not None:
             with open(GEN, "w") as f: f.write(restore)
+            stale += ["Gen/GrammarGen", "InlineGrammarShape", "InlineLRCheck"]
+        if restore_aut is not None:
+            with open(AUT, "w") as f: f.write(restore_aut)
+            stale += ["Gen/AutomatonGen", "InlineLRCheck"]
+        for base in stale:
             for ext in (".vo", ".glob", ".vok", ".vos"):
-                for base in ("Gen/GrammarGen", "InlineGrammarShape"):
-                    try: os.remove(os.path.join(VERIF, "coq", "Inline", base + ext))
-                    except OSError: pass
+                try: os.remove(os.path.join(VERIF, "coq", "Inline", base + ext))
+                except OSError: pass
 
     h = ctx.compile_harness(["c11_inline.c"], "c11_inline", mode="san")
     found = [False]
@@ -544,7 +562,7 @@ def run(ctx):
                    "the implementation, the extracted Coq model and (for trees) the exact denotation computed by the check",
            "samples": [cases[i][0] for i in sorted(rng.sample(range(len(cases)), min(12, len(cases))))],
            "histogram": {"input_class": hist, "ast_nodes": opshist, "implementation_result": errkinds},
-           "grammar_state": grammar_state, "grammar_gen_sha1": hashlib.sha1(gen.encode()).hexdigest(),
+           "grammar_state": grammar_state, "bison_automaton_state": aut_state, "grammar_gen_sha1": hashlib.sha1(gen.encode()).hexdigest(),
            "model_vs_denotation_mismatches": corr_bad,
            "trusted_base": TRUSTED}
     return ctx.finish("proof", cov, ASSUME)
@@ -554,8 +572,9 @@ TRUSTED = ["Coq 8.16.1 kernel (full .vo build), axiom-free development (Print As
            "extraction: ExtrOcamlBasic + ExtrOcamlNativeString, hand-written ocaml/inline_driver.ml (decimal printing of positive/Z)",
            "checks/c11_yacc_reader.py (reader of yacc-parser.y; not verified, its output is pinned by grammar_gen = expected_grammar)",
            "harness/c11_inline.c reading initial_mqp_r/i of the returned mps_monomial_poly; ASan+UBSan build of the snapshot",
-           "bison's LALR construction and conflict resolution are not modelled: agreement of the generated parser with parse_ref is "
-           "established by the exhaustive/random differential only",
+           "bison: its LALR table is imported from `bison -y --xml` on every run (checks/c11_bison_report.py, unverified reader); trusted: "
+           "the XML report describes the tables in the generated yacc-parser.c, and the yacc skeleton behaves like InlineLR.lr_loop; "
+           "agreement of that table with parse_ref is a kernel computation for all token lists of length <= 6, beyond that differential only",
            "tokenizer.l is modelled by hand (InlineModel.lex), tied by the same differential",
            "the check's own exact Gaussian-rational evaluation of generated trees (independent of the Coq model)"]
 ASSUME = ["well-formedness is judged by the language fixed in coq/Inline/InlineModel.v (exponent = integer literal, one 'i' per constant, "
